@@ -65,6 +65,25 @@ pub enum Source {
     RefusedAsyncOutput,
     AllocationFailure,
     MprotectFailure,
+    /// every attempt to make the refused target's page writable fails (not only the first)
+    MprotectFailurePersistent,
+}
+
+/// a refused target on a page of its own (so that a persistent protection failure cannot affect
+/// the restoration of other functions)
+pub const LONE_TARGET: usize = 0x0000_2345_6789_0000 + 0x40;
+static LONE_ARENA: std::sync::OnceLock<bool> = std::sync::OnceLock::new();
+fn lone_target() -> Option<usize> {
+    let ok = *LONE_ARENA.get_or_init(|| match crate::arena::Arena::map(LONE_TARGET & !0xFFF, 2 * crate::arena::PAGE) {
+        Some(a) => {
+            a.put_ret_id(LONE_TARGET, 0x10E);
+            a.seal();
+            std::mem::forget(a);
+            true
+        }
+        None => false,
+    });
+    if ok { Some(LONE_TARGET) } else { None }
 }
 
 #[derive(Serialize, Deserialize, Clone, Debug, Hash, PartialEq, Eq)]
@@ -172,6 +191,15 @@ fn fire(inj: &mut InjectorPP, src: Source, st: &mut Interp, extra_unsat: &mut u6
             ip::MPROTECT_FAIL_AT.store(ip::MPROTECT_CALLS.load(SeqCst) + 1, SeqCst);
             inj.when_called(injectorpp::func!(fn (p_r)(u64) -> u64)).will_execute_raw(injectorpp::func!(fn (p_fake_plain)(u64) -> u64));
         }
+        Source::MprotectFailurePersistent => match lone_target() {
+            Some(t) => {
+                ip::MPROTECT_FAIL_PAGE.store((t & !0xFFF) as u64, SeqCst);
+                unsafe {
+                    inj.when_called(FuncPtr::new(t as *const (), "fn(u64) -> u64")).will_execute_raw(injectorpp::func!(fn (p_fake_plain)(u64) -> u64));
+                }
+            }
+            None => panic!("lone arena unavailable (harness)"),
+        },
     }
 }
 
@@ -206,6 +234,7 @@ pub fn execute(c: &PanicCase) -> PanicObs {
                                 let r = std::panic::catch_unwind(std::panic::AssertUnwindSafe(|| fire(&mut inj, src, &mut st, &mut extra_unsat)));
                                 ip::MODE.store(ip::MODE_PASS, SeqCst);
                                 ip::MPROTECT_FAIL_AT.store(0, SeqCst);
+                                ip::MPROTECT_FAIL_PAGE.store(0, SeqCst);
                                 if r.is_err() {
                                     caught_panics += 1;
                                 }
@@ -278,6 +307,7 @@ pub fn execute(c: &PanicCase) -> PanicObs {
         }));
         ip::MODE.store(ip::MODE_PASS, SeqCst);
         ip::MPROTECT_FAIL_AT.store(0, SeqCst);
+        ip::MPROTECT_FAIL_PAGE.store(0, SeqCst);
         lo.escaped = r.is_err();
         lo.hook_invocations = crate::worker::PANIC_COUNT.load(SeqCst) - before;
         lo.messages = crate::worker::panic_log_take();
@@ -397,6 +427,7 @@ pub fn strategy() -> impl Strategy<Value = PanicCase> {
         1 => Just(Source::RefusedAsyncOutput),
         1 => Just(Source::AllocationFailure),
         1 => Just(Source::MprotectFailure),
+        2 => Just(Source::MprotectFailurePersistent),
     ];
     let life = (prop::collection::vec(step, 0..=7), prop::option::weighted(0.85, (0u8..=7, src, prop::bool::weighted(0.35)))).prop_map(|(steps, pa)| {
         let n = steps.len() as u8;
